@@ -350,6 +350,21 @@ impl Adapter for Pst13A {
         MVPoly::from_coefficients_vec(nv, terms)
     }
     fn make_point(toks: &[String]) -> Vec<Fr> { fs_from_strs(toks) }
+    /// terms in the given order, repeated monomials kept (the public fields of SparsePolynomial)
+    fn make_poly_raw(toks: &[String], nv: Option<usize>) -> Option<MVPoly> {
+        let nv = nv?;
+        let mut terms = vec![];
+        let mut i = 0;
+        while i < toks.len() {
+            let coeff: Fr = f_from_str(&toks[i]);
+            let k: usize = toks[i + 1].parse().unwrap();
+            let mut t = vec![];
+            for j in 0..k { t.push((toks[i + 2 + 2 * j].parse().unwrap(), toks[i + 3 + 2 * j].parse().unwrap())); }
+            terms.push((coeff, SparseTerm::new(t)));
+            i += 2 + 2 * k;
+        }
+        Some(SparsePolynomial { num_vars: nv, terms })
+    }
     fn comm_lin(a: Fr, c1: &Cm<Self>, b: Fr, c2: &Cm<Self>) -> Option<Cm<Self>> { marlin_comm_lin(a, c1, b, c2) }
     fn comm_is_identity(c: &Cm<Self>) -> Option<bool> { use ark_ec::AffineRepr; Some(c.comm.0.is_zero()) }
     /// C08: sum over the terms of coefficient * powers_of_g[term]
@@ -394,6 +409,10 @@ impl Adapter for HyraxA {
     }
     fn proof_obs(name: &str, pf: &Pf<Self>, out: &mut Out) {
         out.obs1(&format!("{}.n", name), "N", pf.len().to_string());
+        // the masks of the dot-product argument are fresh per polynomial
+        let mut fresh = true;
+        for a in 0..pf.len() { for b in (a + 1)..pf.len() { if pf[a].com_d == pf[b].com_d || pf[a].com_b == pf[b].com_b { fresh = false; } } }
+        out.obs1(&format!("{}.fresh_masks", name), "S", if fresh { "yes".into() } else { "no".into() });
         for (k, p) in pf.iter().enumerate() {
             out.obs(&format!("{}.{}.coms", name, k), "L:basis", &[ser_hex(&p.com_eval), ser_hex(&p.com_d), ser_hex(&p.com_b)]);
             out.obs(&format!("{}.{}.z", name, k), "F", &fs_to_strs(&p.z));
@@ -619,7 +638,7 @@ macro_rules! rs_transplant_attack {
     };
 }
 
-fn ligero_params(c: &Case) -> Option<ark_poly_commit::linear_codes::LigeroPCParams<Fr, MTConfig, ColH<Fr>>> {
+pub fn ligero_params(c: &Case) -> Option<ark_poly_commit::linear_codes::LigeroPCParams<Fr, MTConfig, ColH<Fr>>> {
     if !c.has("lig") { return None; }
     let v = c.usizes("lig");   // sec_param rho_inv check_well_formedness
     Some(ark_poly_commit::linear_codes::LigeroPCParams::new(v[0], v[1], v[2] == 1, (), (), ()))
